@@ -14,8 +14,14 @@
 //	recfile <stamp> <user> <counter> <ext>   the name openDiskFile creates
 //	delete <group> <filename>     the delete action: refused or attempted
 //
+//	getperm <tok> <parse> <needs> <check> <cuser> <exists> <pwok>
+//	                              Description.GetPermission: the username a join
+//	                              gets (password, stateful token with/without a
+//	                              username, JWT sub); the token verdicts are
+//	                              oracles read off the real token package
+//
 // Operations observed by monitors only (real file system, in a sandbox):
-// groupadd, updatedesc, updateuser, apiput.
+// groupadd, updatedesc, updateuser, apiput, addclient.
 //
 // Inputs: regression literals, then every string of at most L symbols over
 // {a . / \ % NUL é} (L = 5, or 6 when n >= 5000), then n seeded random longer
@@ -24,9 +30,11 @@ package main
 
 import (
 	"bytes"
+	"encoding/base64"
 	"fmt"
 	"io"
 	"log"
+	"net"
 	"net/http"
 	"net/http/httptest"
 	"net/url"
@@ -37,8 +45,12 @@ import (
 	"strings"
 	"time"
 
+	"github.com/golang-jwt/jwt/v5"
+
+	"github.com/jech/galene/conn"
 	"github.com/jech/galene/diskwriter"
 	"github.com/jech/galene/group"
+	"github.com/jech/galene/token"
 	"github.com/jech/galene/webserver"
 
 	"verifharness/internal/tr"
@@ -613,6 +625,199 @@ func (d *drv) sentinel(sb *sandbox) {
 	}
 }
 
+// ---------------------------------------------------------------- joins
+
+// stubClient records what the group layer tells a client at join time.
+type stubClient struct {
+	id       string
+	group    *group.Group
+	username string
+	perms    []string
+	inited   bool
+}
+
+func (c *stubClient) Group() *group.Group { return c.group }
+func (c *stubClient) Addr() net.Addr      { return nil }
+func (c *stubClient) Id() string          { return c.id }
+func (c *stubClient) Username() string    { return c.username }
+func (c *stubClient) Init(username string, perms []string) {
+	c.username, c.perms, c.inited = username, perms, true
+}
+func (c *stubClient) Permissions() []string        { return c.perms }
+func (c *stubClient) Data() map[string]interface{} { return nil }
+func (c *stubClient) PushConn(g *group.Group, id string, up conn.Up, tracks []conn.UpTrack, replace string) error {
+	return nil
+}
+func (c *stubClient) RequestConns(target group.Client, g *group.Group, id string) error { return nil }
+func (c *stubClient) Joined(group, kind string) error                                   { return nil }
+func (c *stubClient) PushClient(group, kind, id, username string, perms []string, data map[string]interface{}) error {
+	return nil
+}
+func (c *stubClient) Kick(id string, user *string, message string) error { return nil }
+
+const joinGroup = "joinme"
+
+var jwtSecret = []byte("0123456789abcdef0123456789abcdef")
+
+func optHex(s *string) string {
+	if s == nil {
+		return "nil"
+	}
+	return hx(*s)
+}
+
+// join presents one set of credentials to the real Description.GetPermission
+// and to the real group.AddClient.  The rule of the property: whenever the
+// join is accepted, the username the client ends up with is empty or a valid
+// name -- whichever way it came in.
+func (d *drv) join(sb *sandbox, counters map[string]int, kind string, creds group.ClientCredentials) {
+	t := d.t
+	t.History("paths", "join-"+kind)
+	desc, err := group.GetDescription(joinGroup)
+	if err != nil {
+		t.Fail("C19", "harness", "GetDescription: "+err.Error())
+		return
+	}
+	// oracles: what the real token package says about the token
+	tokPresent := creds.Token != ""
+	parseOK, needs := false, false
+	var check *string
+	if tokPresent {
+		tok, err := token.Parse(creds.Token, desc.AuthKeys)
+		if err == nil && tok != nil {
+			parseOK = true
+			needs = tok.NeedsUsername()
+			if u, _, err := tok.Check("", joinGroup); err == nil {
+				check = &u
+			}
+		}
+	}
+	exists := false
+	if creds.Username != nil {
+		_, exists = desc.Users[*creds.Username]
+	}
+	pwOK := creds.Password == "pw"
+
+	username, _, err := desc.GetPermission(joinGroup, creds)
+	obs := "refused"
+	if err == nil {
+		obs = "ok " + hx(username)
+	}
+	t.Op(obs, "getperm", tokPresent, parseOK, needs, optHex(check), optHex(creds.Username), exists, pwOK)
+	t.Checked("C19.join_username_valid")
+	if err == nil {
+		t.Note("join-accepted-" + kind)
+		if !(username == "" || specValid(username)) {
+			t.Fail("C19", "join_username_valid", fmt.Sprintf("GetPermission (%s, client username %s, token username %s) accepted the username %q",
+				kind, optQ(creds.Username), optQ(check), username))
+		}
+	} else {
+		t.Note("join-refused-" + kind)
+	}
+
+	// the same through a real join
+	d.cnt++
+	c := &stubClient{id: fmt.Sprintf("c%d", d.cnt)}
+	g, err := group.AddClient(joinGroup, c, creds)
+	obs = "refused"
+	if err == nil {
+		c.group = g
+		obs = "ok " + hx(c.username)
+	}
+	t.Op(obs, "addclient", kind, optHex(creds.Username), optHex(check))
+	t.Checked("C19.join_username_valid")
+	if err == nil {
+		if !(c.username == "" || specValid(c.username)) {
+			t.Fail("C19", "join_username_valid", fmt.Sprintf("AddClient (%s, client username %s, token username %s): the member's username is %q",
+				kind, optQ(creds.Username), optQ(check), c.username))
+		}
+		t.Nontrivial("join/" + kind + "/" + fmt.Sprint(strings.Count(c.username, "/")))
+		group.DelClient(c)
+		// the recording of this member stays one component of the group's directory
+		if !strings.Contains(c.username, "\x00") {
+			d.recFile(sb, counters, joinGroup, c.username, "webm")
+		}
+	}
+}
+
+func optQ(s *string) string {
+	if s == nil {
+		return "<none>"
+	}
+	return fmt.Sprintf("%q", *s)
+}
+
+func (d *drv) joins(sb *sandbox, names []string) {
+	t := d.t
+	desc := `{"users": {"op": {"password": "pw", "permissions": "op"}},
+ "wildcard-user": {"password": "pw", "permissions": "present"},
+ "authKeys": [{"kty": "oct", "alg": "HS256", "k": "` + base64.RawURLEncoding.EncodeToString(jwtSecret) + `"}]}`
+	sb.resetGroups()
+	if err := os.WriteFile(filepath.Join(sb.groups, joinGroup+".json"), []byte(desc), 0600); err != nil {
+		t.History("paths", "join-setup")
+		t.Fail("C19", "harness", err.Error())
+		return
+	}
+	token.SetStatefulFilename(filepath.Join(sb.data, "tokens.jsonl"))
+	defer token.SetStatefulFilename("")
+	defer group.Delete(joinGroup)
+	expires := time.Now().Add(time.Hour)
+	mint := func(tok string, username *string) bool {
+		_, err := token.Update(&token.Stateful{Token: tok, Group: joinGroup, Username: username,
+			Permissions: []string{"present"}, Expires: &expires}, "")
+		return err == nil
+	}
+	signJWT := func(sub *string) string {
+		claims := jwt.MapClaims{"aud": "https://galene.example/group/" + joinGroup + "/",
+			"permissions": []string{"present"}, "iat": time.Now().Add(-time.Minute).Unix(),
+			"exp": time.Now().Add(time.Hour).Unix()}
+		if sub != nil {
+			claims["sub"] = *sub
+		}
+		s, err := jwt.NewWithClaims(jwt.SigningMethodHS256, claims).SignedString(jwtSecret)
+		if err != nil {
+			return ""
+		}
+		return s
+	}
+	if !mint("anon", nil) {
+		t.History("paths", "join-setup")
+		t.Fail("C19", "harness", "cannot mint a token")
+		return
+	}
+	counters := map[string]int{}
+	str := func(s string) *string { return &s }
+	anonJWT := signJWT(nil)
+	for i, u := range names {
+		// (a) password credentials
+		d.join(sb, counters, "password", group.ClientCredentials{Username: str(u), Password: "pw"})
+		if i%8 == 0 {
+			d.join(sb, counters, "password", group.ClientCredentials{Username: str(u), Password: "wrong"})
+		}
+		// (b) a stateful token that carries the username
+		tok := fmt.Sprintf("named%d", i)
+		if mint(tok, str(u)) {
+			d.join(sb, counters, "token-username", group.ClientCredentials{Token: tok})
+			d.join(sb, counters, "token-username", group.ClientCredentials{Token: tok, Username: str("bob")})
+		}
+		// (c) a token without username, the client chooses
+		d.join(sb, counters, "token-anon", group.ClientCredentials{Token: "anon", Username: str(u)})
+		// (d) a JWT whose sub is the username; and one without sub
+		if j := signJWT(str(u)); j != "" {
+			d.join(sb, counters, "jwt-sub", group.ClientCredentials{Token: j})
+			if i%4 == 0 {
+				d.join(sb, counters, "jwt-sub", group.ClientCredentials{Token: j, Username: str("bob")})
+			}
+		}
+		if anonJWT != "" {
+			d.join(sb, counters, "jwt-anon", group.ClientCredentials{Token: anonJWT, Username: str(u)})
+		}
+	}
+	d.join(sb, counters, "token-anon", group.ClientCredentials{Token: "anon"})
+	d.join(sb, counters, "none", group.ClientCredentials{})
+	d.join(sb, counters, "token-unknown", group.ClientCredentials{Token: "nosuchtoken", Username: str("bob")})
+}
+
 // ---------------------------------------------------------------- generators
 
 func enumerate(maxLen int, f func(string)) int {
@@ -741,6 +946,13 @@ func runPaths(t *tr.Trace, r *tr.Rand, n int) {
 	for i := 0; i < 60; i++ {
 		d.recFile(sb, counters, "grp", randomString(r), "webm")
 	}
+
+	// joins: every way a username enters (password, token, JWT)
+	joinNames := append(append([]string{"alice", "bob", "op", "../../escape", "/etc/passwd", "a/"}, corpus[:44]...), short3...)
+	for i := 0; i < 40; i++ {
+		joinNames = append(joinNames, randomString(r))
+	}
+	d.joins(sb, joinNames)
 
 	// delete action of the recordings page
 	for _, s := range append(append([]string{"f1", "sub", "sub/f2", "../other/x", "..\\other\\x", "../top", "grp"}, corpus...), short...) {
